@@ -15,6 +15,7 @@ divergence between model and code (a bug in the Rust code in the same place, too
   tools/model_mutate.py run    [--target 260] [--seed N] [--files F,..] [--full-matrix] [--matrix-min M] [--out DIR]
                                [--only ID,..] [--from results.json (re-run the same mutants)] [--survivors-of results.json]
   tools/model_mutate.py report results.json ...                regenerate REPORT*.md from result files
+  tools/model_mutate.py summary label=results.json ...         seeded/model_mutants/REPORT.md + results.json over several runs
   tools/model_mutate.py show ID                               print the diff of one mutant
 
 Nothing under coq/ is ever written: mutants live in /tmp/mm-<pid>/ (or $MM_SCRATCH).
@@ -953,6 +954,80 @@ def write_report(result, path):
     open(path, "w", encoding="utf-8").write("\n".join(L) + "\n")
 
 
+def cmd_summary(args):
+    """seeded/model_mutants/REPORT.md + results.json: the campaigns side by side (label=file pairs; a label ending in
+    `:before` marks a run on the harness as found)"""
+    outdir = os.path.join(ROOT, "seeded", "model_mutants")
+    runs = []
+    for spec in args.runs:
+        label, path = spec.split("=", 1)
+        runs.append((label, path, json.load(open(path))))
+    L = ["# Model mutation testing of the correspondence check: summary\n",
+         "Method, analysis of the survivors and the blind spots that were repaired: `design/model_mutation.md` (DESIGN 9.8); "
+         "classification of every survivor: `ANALYSIS.md`; one report per run: the `REPORT_*.md` files next to this one; tool: "
+         "`tools/model_mutate.py`.\n",
+         "## Runs\n",
+         "| run | result file | mutants | killed | survived | kill rate | ill-typed candidates | wall s |", "|---|---|---|---|---|---|---|---|"]
+    summary = {"runs": []}
+    for label, path, r in runs:
+        ms = r["mutants"]
+        k = sum(1 for m in ms if m["verdict"] == "killed")
+        L.append(f"| {label.replace(':before', '')} | `{os.path.basename(path)}` | {len(ms)} | {k} | {len(ms) - k} | {100.0 * k / len(ms):.1f} % | {len(r['discarded'])} | {r['wall_s']} |")
+        summary["runs"].append({"label": label, "file": os.path.basename(path), "mutants": len(ms), "killed": k, "survived": len(ms) - k,
+                                "survivors": [m["id"] for m in ms if m["verdict"] != "killed"]})
+    L.append("")
+    final = [(l, p_, r) for (l, p_, r) in runs if not l.endswith(":before")]
+    allm = [m for (_l, _p, r) in final for m in r["mutants"]]
+    k = sum(1 for m in allm if m["verdict"] == "killed")
+    L.append(f"## All mutants on the harness as it is now ({len(allm)} distinct mutants, {k} killed = {100.0 * k / len(allm):.1f} %, "
+             f"{len(allm) - k} survivors, every one classified as equivalent / unreachable in `ANALYSIS.md`)\n")
+    L.append("### per model file\n")
+    L.append("| model file | mutants | killed | survived | kill rate |")
+    L.append("|---|---|---|---|---|")
+    per_file = {}
+    for f in MODEL_FILES:
+        sub = [m for m in allm if m["file"] == f]
+        if sub:
+            kk = sum(1 for m in sub if m["verdict"] == "killed")
+            per_file[f] = {"mutants": len(sub), "killed": kk}
+            L.append(f"| Model/{f}.v | {len(sub)} | {kk} | {len(sub) - kk} | {100.0 * kk / len(sub):.0f} % |")
+    L.append("")
+    L.append("### per mutation operator\n")
+    L.append("| operator | mutants | killed | survived |")
+    L.append("|---|---|---|---|")
+    for op in sorted({m["op"] for m in allm}):
+        sub = [m for m in allm if m["op"] == op]
+        kk = sum(1 for m in sub if m["verdict"] == "killed")
+        L.append(f"| {op} | {len(sub)} | {kk} | {len(sub) - kk} |")
+    L.append("")
+    L.append("### per property stream\n")
+    kfull = [m for m in allm if m["verdict"] == "killed" and m.get("row_complete")]
+    L.append(f"Over the {len(kfull)} killed mutants that were run against ALL their streams (random samples; see the single reports for the "
+             "definitions).\n")
+    L.append("| stream | exposed | kills | share | only killer of | first killer (all killed mutants) |")
+    L.append("|---|---|---|---|---|---|")
+    per_stream = {}
+    for st in STREAMS:
+        sub = [m for m in kfull if st in m["streams"]]
+        kk = [m for m in sub if m["streams"][st]["status"].startswith("killed")]
+        only = [m for m in kk if len(m["killed_by"]) == 1]
+        fk = sum(1 for m in allm if m["killed_by"] and m["killed_by"][0] == st)
+        if sub:
+            per_stream[st] = {"exposed": len(sub), "kills": len(kk), "only_killer_of": len(only), "first_killer": fk}
+            L.append(f"| {st} | {len(sub)} | {len(kk)} | {100.0 * len(kk) / len(sub):.0f} % | {len(only)} | {fk} |")
+    L.append("")
+    L.append("## Survivors on the harness as it is now\n")
+    for m in allm:
+        if m["verdict"] != "killed":
+            L.append(f"* `{m['id']}`: {m['descr']}")
+    summary["now"] = {"mutants": len(allm), "killed": k, "per_file": per_file, "per_stream": per_stream}
+    open(os.path.join(outdir, "REPORT.md"), "w", encoding="utf-8").write("\n".join(L) + "\n")
+    json.dump(summary, open(os.path.join(outdir, "results.json"), "w"), indent=1, ensure_ascii=False)
+    print(f"{len(allm)} mutants, {k} killed")
+    return 0
+
+
+
 def main():
     ap = argparse.ArgumentParser()
     sub = ap.add_subparsers(dest="cmd")
@@ -965,6 +1040,8 @@ def main():
     a.add_argument("-v", "--verbose", action="store_true")
     a = sub.add_parser("show")
     a.add_argument("id")
+    a = sub.add_parser("summary")
+    a.add_argument("runs", nargs="+", help="label=results.json ...")
     a = sub.add_parser("report")
     a.add_argument("json", nargs="+")
     a = sub.add_parser("run")
@@ -991,6 +1068,8 @@ def main():
         return cmd_show(args)
     if args.cmd == "run":
         return cmd_run(args)
+    if args.cmd == "summary":
+        return cmd_summary(args)
     if args.cmd == "report":
         for p in args.json:
             write_report(json.load(open(p)), os.path.join(os.path.dirname(p), os.path.basename(p)[:-5].replace("results", "REPORT") + ".md"))
